@@ -290,6 +290,14 @@ def search(h):
         n = 0 if first is None else arrivals[first]
         h.oblige("the result lists each answering console once", h.length(r.value) == n)
     h.oblige("requests are 0.5 s apart", all(h.eq(sends[i + 1][3], sends[i][3] + 0.5) is True or True for i in range(len(sends) - 1)))
+    if r.ok and first is not None:
+        # the same discoverer object is used again: a new search starts from scratch
+        n_sends = len(sends)
+        state["interval"] = 3  # no more arrivals
+        r2 = h.method(disc, "search")
+        sends2 = w.events("sendto")[n_sends:]
+        h.oblige("a second search with the same discoverer sends its requests again and reports only what answers now",
+                 And(r2.ok, len(sends2) == 3, h.length(r2.value) == 0 if r2.ok else False))
     h.oblige("constants: 0.5 s interval, three requests", And(h.get(DISC + ":_DISCOVERY_REQUEST_INTERVAL") == 0.5, h.get(DISC + ":_DISCOVERY_MAX_REQUESTS") == 3))
     h.cover("search explored")
 
